@@ -55,6 +55,10 @@ type Registry map[string]func(tier string, seed int64) *Spec
 
 var Reg = Registry{}
 
+// debugging knobs
+var Only string
+var TimeoutOverride int
+
 func loadKnown(verifDir string) ([]KnownFinding, error) {
 	data, err := os.ReadFile(filepath.Join(verifDir, "known_findings.json"))
 	if err != nil {
@@ -102,6 +106,15 @@ func Run(prop, tier string, seed int64, repoDir, verifDir string, verbose bool) 
 	}
 	// exclusion parameters
 	insts := append([]run.Instance(nil), spec.Instances...)
+	if Only != "" {
+		var f []run.Instance
+		for _, in := range insts {
+			if strings.Contains(in.Name(), Only) {
+				f = append(f, in)
+			}
+		}
+		insts = f
+	}
 	for i := range insts {
 		p := map[string]int64{}
 		for k, v := range insts[i].Params {
@@ -158,7 +171,7 @@ func Run(prop, tier string, seed int64, repoDir, verifDir string, verbose bool) 
 		wg.Add(1)
 		go func() {
 			defer wg.Done()
-			var s *sym.Solver
+			var s *sym.Pool
 			defer func() {
 				if s != nil {
 					s.Close()
@@ -166,24 +179,22 @@ func Run(prop, tier string, seed int64, repoDir, verifDir string, verbose bool) 
 			}()
 			for i := range jobs {
 				inst := all[i]
-				kind := inst.Opt.Solver
-				if kind == "" {
-					kind = "z3"
+				kinds := inst.Opt.Solver
+				if kinds == "" {
+					kinds = "z3-new,z3"
 				}
 				to := inst.Opt.TimeoutMs
 				if to == 0 {
 					to = 120000
 				}
-				if s == nil || s.Name != kind {
+				if TimeoutOverride > 0 {
+					to = TimeoutOverride
+				}
+				if s == nil || strings.Join(s.Kinds, ",") != kinds || s.SoftMs != to {
 					if s != nil {
 						s.Close()
 					}
-					var err error
-					s, err = sym.StartSolver(kind, to)
-					if err != nil {
-						results[i] = &run.InstResult{Inst: inst, Err: err}
-						continue
-					}
+					s = sym.NewPool(strings.Split(kinds, ","), to)
 				}
 				r := w.RunInstance(inst, s)
 				// replay satisfiable obligations natively
@@ -198,16 +209,6 @@ func Run(prop, tier string, seed int64, repoDir, verifDir string, verbose bool) 
 					mu.Lock()
 					printInst(r)
 					mu.Unlock()
-				}
-				// a dead solver must not poison later instances
-				if r.Err == nil {
-					for _, o := range r.Obs {
-						if strings.Contains(o.Detail, "solver died") {
-							s.Close()
-							s = nil
-							break
-						}
-					}
 				}
 			}
 		}()
@@ -368,7 +369,7 @@ func Run(prop, tier string, seed int64, repoDir, verifDir string, verbose bool) 
 		"ssa_instructions_executed": instrs,
 		"terms_built":               terms,
 		"bitscan_loops_reindexed":   reidx,
-		"solver":                    "z3 4.8.12 (/usr/bin/z3 -in), SMT-LIB2 QF_BV(+UF) regenerated from /repo's working tree on this run",
+		"solver":                    "portfolio race of z3 5.1.0 (z3-new -in) and z3 4.8.12 (z3 -in) on each query; first sat/unsat answer wins; SMT-LIB2 QF_BV(+UF) text regenerated from /repo's working tree on this run; any error/unknown/timeout is inconclusive, never success",
 		"solver_s":                  solverMs / 1000,
 		"symbolic_execution_s":      execMs / 1000,
 		"load_and_ssa_build_s":      w.LoadTime.Seconds(),
